@@ -206,6 +206,29 @@ def check_eq(has_old, hand, c0, x0, approved):
     return v == want
 
 
+def check_eq_twice(c0, x0, x1, approved):
+    """one == snapshot(c0) evaluated with x0 then x1: fix is reported exactly when some comparison against the current
+    value fails (the value itself is only defined when the test does not contradict itself)"""
+    W.ns = {"c0": c0}
+    r, v = run_site("==", "c0", [x0, x1], approved)
+    got = set(r.categories)
+    PathLog.record(f"eq2{sorted(approved)}{sorted(got)}{r.text}", nontrivial=bool(got), sample={"op": "x == snapshot (two observations)", "approved": sorted(approved), "reported": sorted(got)})
+    wrong = (not (x0 == c0)) or (not (x1 == c0))
+    if not (x0 == c0):
+        # the first comparison against the value in the source fails: a fix is pending
+        if "fix" not in got:
+            return False
+    elif not wrong:
+        if got:
+            return False
+    # (first observation equal, a later one different: the test contradicts itself - one == snapshot compared with
+    #  different values - no category can repair it; exempt, as in C02)
+    if x0 == x1 and v is not MISSING:
+        want = x0 if ("fix" in approved and wrong) else c0
+        return v == want
+    return True
+
+
 def check_getitem(old_keys, olds, keys, xs, approved, compared=None):
     W.ns = {f"c{i}": o for i, o in enumerate(olds)}
     has_old = old_keys is not None
@@ -297,6 +320,9 @@ def conditions(tier):
             body = f"return check_eq({has_old}, {hand}, c0, x0, {sub!r})"
             conds.append(Cond(name, mkfn(name, [("c0", "int"), ("x0", "int")], body, GLB), timeout=600, group=f"eq-{sn}",
                               bounds=f"x == snapshot({'h0 (hand-written)' if hand else ('c0' if has_old else '')}), approved={sorted(sub)}"))
+        name = f"eq_twice_{sn}"
+        conds.append(Cond(name, mkfn(name, [("c0", "int"), ("x0", "int"), ("x1", "int")], f"return check_eq_twice(c0, x0, x1, {sub!r})", GLB), timeout=600, group=f"eq-{sn}",
+                          bounds=f"x == snapshot(c0) evaluated with two symbolic values (equal or not), approved={sorted(sub)}: fix reported iff some comparison fails"))
         gi = [(None, (1,), None), (None, (1, 2), None), ((1,), (1,), None), ((1,), (2,), None), ((1, 2), (2,), None), ((1, 2), (1, 3), None), ((1, 2), (2, 2), None),
               # keys that are accessed (s[key] evaluated) but not compared in this run
               ((1, 2, 3), (1, 2), (True, False)), ((1, 2), (2, 3), (False, True)), ((1,), (1, 2), (False, False)), (None, (1, 2), (True, False))]
